@@ -20,6 +20,266 @@ def all_codes():
     return [r["iso3"] for r in csv.DictReader(open(os.path.join(REPO, "data", "no_food_trade", "computer_readable_combined.csv")))]
 
 
+# ---------------------------------------------------------------------------------------------------------------------
+# correspondence of Model/Validator.v with src/optimizer/validate_results.py (the built-in validation checks)
+
+VAL_IMPORTS = "From Allfed Require Import Gen.UnitTables Model.Units Model.LP Model.LPBool Model.Report Model.Validator."
+VAL_DEFS = """
+Definition agree (m i : bool) : nat := if Bool.eqb m i then 0%nat else 1%nat.
+Definition mk_ii (cs scp gh fish meat milk ns : list Q) : interpreted :=
+  {| p_sf := []; p_cr := []; p_sw := []; p_cs := cs; p_scp := scp; p_gh := gh; p_fish := fish; p_meat := meat;
+     p_milk := milk; p_imm := []; p_ns := []; p_sum := []; headline := 0;
+     q_sf := []; q_cr := []; q_imm := []; q_ns := ns; q_sw := [];
+     k_fish := []; k_cs := []; k_scp := []; k_gh := []; k_sw := []; k_milk := []; k_meat := []; k_imm := [];
+     k_ns := []; k_sf := [] |}.
+Definition vconv (kd fd pd pop : Q) : conv := {| kcals_daily := kd; fat_daily := fd; protein_daily := pd; population := pop |}.
+"""
+SMALL_CODES = ["EST", "LUX", "CYP", "GUY", "SWT"]
+OTHER_CODES = ["USA", "ARG", "SWZ", "NZL", "LU", "EST ", "est", "GUYX", "WOR", "CHN", "", "SWT2"]
+VAL_SLOTS = [("SF_h", "Stored_Food_To_Humans"), ("SF_f", "Stored_Food_Feed"), ("CR_h", "Crops_Food_To_Humans"),
+             ("SCP_b", "Methane_SCP_Biofuel"), ("M_eaten", "Meat_Eaten")]
+
+
+def _hx(x):
+    if isinstance(x, (list, tuple)):
+        return [_hx(v) for v in x]
+    if isinstance(x, (str, bool)) or x is None:
+        return x
+    if isinstance(x, dict):
+        return {k: _hx(v) for k, v in x.items()}
+    return float(x).hex() if isinstance(x, float) else x
+
+
+def validator_cases(rng, quick):
+    """-> list of (case dict for the runner, coq model term of type bool, kind of observation, skip?)"""
+    from fractions import Fraction as Fr
+    from lib import fq, fql, cstr, cbool
+    out = []
+
+    def add(case, term, obs="pass", skip=False):
+        out.append({"case": case, "term": term, "obs": obs, "skip": skip})
+
+    def eighth(lo, hi):
+        return rng.randint(int(lo * 8), int(hi * 8)) / 8.0
+
+    # ---- ensure_optimizer_returns_same_as_sum_nutrients: round(model - headline, 0) == 0 ; listed small countries: < 5
+    diffs = [0.0, 0.125, 0.375, 0.5, 0.625, 1.0, 1.5, 2.5, 3.5, 4.375, 4.5, 4.625, 5.0, 5.5, 7.0,
+             -0.125, -0.375, -0.5, -0.625, -1.5, -4.5, -5.5, -100.0]
+    pairs = [(c, d) for c in SMALL_CODES for d in (0.5, 0.625, 2.5, 4.5, 4.625, -0.625, -100.0, 5.5)]
+    pairs += [(c, d) for c in OTHER_CODES for d in (0.5, 0.625, 2.5)] + [("USA", -0.5), ("ARG", -0.625), ("USA", 0.0)]
+    pairs += [(rng.choice(SMALL_CODES + OTHER_CODES), rng.choice(diffs)) for _ in range(20 if quick else 200)]
+    for code, d in pairs:
+        h = eighth(0, 400)
+        v = h + d
+        add({"fn": "sum_nutrients", "code": code, "from_model": v, "headline": h},
+            f"ensure_optimizer_returns_same_as_sum_nutrients {cstr(code)} {fq(v)} {fq(h)}")
+
+    # ---- assert_round3_percent_fed_not_lower_than_round1 (prints, never raises): r3 <= min - 0.1 and not r1 <= r3 + 1
+    d3s = [-0.0625, -0.125, -0.25, -1.0, -30.0, 0.0, 0.5, 20.0]
+    d1s = [1.0, 0.875, 1.125, 1.0625, 1.5, 2.5, 0.0, -5.0, 12.5, 60.0]
+    grid = [(100.0, a, b) for a in d3s for b in d1s]
+    grid += [(rng.choice([10.0, 62.5, 0.0, 100.0]), rng.choice(d3s), rng.choice(d1s)) for _ in range(20 if quick else 300)]
+    for mn, a, b in grid:
+        r3 = max(mn + a, 0.0)
+        r1 = r3 + b
+        skip = abs(Fr(r3) - (Fr(mn) - Fr(1, 10))) <= Fr(1, 10 ** 9) * max(1, abs(Fr(mn)))
+        add({"fn": "round3_vs_round1", "minimum": mn, "round1": r1, "round3": r3},
+            f"round3_percent_fed_not_lower_than_round1 {fq(mn)} {fq(r1)} {fq(r3)}", obs="silent", skip=skip)
+
+    # ---- assert_meat_dairy_doesnt_decrease_round_2: meat2.sum() + milk1.sum() >= (meat1.sum() + milk1.sum()) * (1 - 1e-2)
+    ps = [Fr(0), Fr(1, 200), Fr(99, 10000), Fr(1, 100), Fr(101, 10000), Fr(3, 200), Fr(1, 50), Fr(-1, 20), Fr(1, 2)]
+    mgrid = [(p, j) for p in ps for j in (0.0, 0.125, -0.125)]
+    mgrid += [(rng.choice(ps), rng.choice([0.0, 0.125, -0.125])) for _ in range(12 if quick else 300)]
+    for p, jit in mgrid:
+        n = rng.randint(1, 4)
+        m1 = [eighth(0, 400) for _ in range(n)]
+        k1 = [rng.choice([0.0, eighth(0, 100)]) for _ in range(n)]
+        k2 = [rng.choice([0.0, eighth(-1000, 1000)]) for _ in range(n)]
+        m2 = list(m1)
+        rng.shuffle(m2)
+        S = sum(Fr(x) for x in m1) + sum(Fr(x) for x in k1)
+        # move the round-2 total to  (1 - p) * S  for p around the 1 % tolerance, on the 1/8 grid
+        target = (1 - p) * S - sum(Fr(x) for x in k1)
+        delta = float(round((target - sum(Fr(x) for x in m2)) * 8)) / 8.0 + jit
+        m2[rng.randrange(n)] += delta
+        lhs = sum(Fr(x) for x in m2) + sum(Fr(x) for x in k1)
+        skip = abs(lhs - S * Fr(99, 100)) <= Fr(1, 10 ** 9) * max(1, abs(S))
+        add({"fn": "meat_dairy", "meat1": m1, "meat2": m2, "milk1": k1, "milk2": k2},
+            f"assert_meat_dairy_doesnt_decrease_round_2 {fql(m1)} {fql(m2)} {fql(k1)} {fql(k2)}", skip=skip)
+
+    # ---- ensure_all_greater_than_or_equal_to_zero: thresholds 1e-6 (cell sugar, SCP), round to 6 decimals (greenhouse,
+    #      meat), exact 0 (fish, milk, new stored crops); immediate crops are not looked at
+    attrs = ["cell_sugar", "scp", "greenhouse", "fish", "meat", "milk", "new_stored_outdoor_crops", "immediate_outdoor_crops"]
+    probes = [0.0, -2.0 ** -30, -2.0 ** -22, -2.0 ** -21, -2.0 ** -20, -2.0 ** -19, -2.0 ** -17, -2.0 ** -10, -1.0, 2.0 ** -20]
+    combos = [(a, x) for a in attrs for x in probes]
+    if not quick:
+        combos = combos * 3
+    for a, x in combos:
+        n = rng.randint(1, 4)
+        ser = {b: [eighth(0, 50) for _ in range(n)] for b in attrs}
+        ser[a][rng.randrange(n)] = x
+        # np.round(x, 6): stay away from rounding ties of x * 1e6
+        fr = (Fr(x) * 10 ** 6) % 1
+        skip = abs(fr - Fr(1, 2)) < Fr(1, 10 ** 6) or abs(abs(Fr(x)) - Fr(1, 10 ** 6)) <= Fr(1, 10 ** 15)
+        c = {"fn": "ge_zero"}
+        c.update(ser)
+        add(c, "ensure_all_greater_than_or_equal_to_zero (mk_ii " +
+            " ".join(fql(ser[b]) for b in ("cell_sugar", "scp", "greenhouse", "fish", "meat", "milk",
+                                           "new_stored_outdoor_crops")) + ")", skip=skip)
+
+    # ---- ensure_zero_kcals_have_zero_fat_and_protein (asserts only with tracking on)
+    # one offending food at a time (non-zero fat or protein in a zero-kcals month) under each flag setting, then clean ones
+    zgrid = [(bad, nut, fl) for bad in range(8) for nut in ("fat", "protein") for fl in ((True, True), (nut == "fat", nut == "protein"))]
+    zgrid += [(bad, nut, (nut != "fat", nut != "protein")) for bad in range(0, 8, 3) for nut in ("fat", "protein")]
+    zgrid += [(None, "fat", rng.choice([(False, False), (True, False), (False, True), (True, True)]))
+              for _ in range(6 if quick else 60)]
+    for bad, nut, (incf, incp) in zgrid:
+        n = rng.randint(1, 3)
+        foods = []
+        for j in range(8):
+            k = [rng.choice([0.0, 0.0, eighth(0, 10)]) for _ in range(n)]
+            if j == bad:
+                k[rng.randrange(n)] = 0.0
+            f = [0.0 if kk == 0 else eighth(0, 4) for kk in k]
+            p = [0.0 if kk == 0 else eighth(0, 4) for kk in k]
+            if j == bad:
+                (f if nut == "fat" else p)[k.index(0.0)] = 0.125 + eighth(0, 4)
+            foods.append((k, f, p))
+        add({"fn": "zero_kcals", "include_fat": incf, "include_protein": incp, "foods": [list(t) for t in foods]},
+            f"ensure_zero_kcals_have_zero_fat_and_protein {cbool(incf)} {cbool(incp)} [" +
+            "; ".join(f"({fql(k)}, {fql(f)}, {fql(p)})" for k, f, p in foods) + "]")
+
+    # ---- assert_feed_used_below_feed_demand / assert_biofuels_used_below_biofuels_demand on stub objects:
+    #      (demand - total.in_units_bil_kcals...() * (1 - 1e-4)).kcals > -1e-6
+    shifts = [0.0, -2.0 ** -21, -2.0 ** -19, -2.0 ** -17, -1.0, 2.0 ** -21, 1.0]
+    fgrid = [(j, sh) for sh in shifts for j in (0, 1)] * (1 if quick else 6)
+    fgrid += [(j, rng.choice(shifts)) for j in range(2, 18 if quick else 100)]
+    for j, crit_shift in fgrid:
+        fn = "feed_below_demand" if j % 2 == 0 else "biofuels_below_demand"
+        st = {"kcals_daily": rng.choice([2100.0, 2000.0, 1800.0]), "fat_daily": 47.0, "protein_daily": 51.0,
+              "population": rng.choice([1.0e6, 1.0e7, 3.3e8, 658359.0])}
+        incf, incp = rng.choice([(False, False)] * 6 + [(True, False), (False, True)])
+        n = rng.randint(1, 4)
+        series = [[rng.choice([0.0, eighth(0, 2)]) for _ in range(n)] for _ in range(5)]
+        series[rng.randrange(5)][0] += 0.125       # never all zero in month 0
+        bkn = Fr(st["kcals_daily"]) * 30 * Fr(st["population"]) / 10 ** 9
+        red = [(1 - Fr(1, 10000)) * (bkn / 100) * sum(Fr(s[m]) for s in series) for m in range(n)]
+        crit = rng.randrange(n)
+        dem, skip = [], False
+        for m in range(n):
+            sh = crit_shift if m == crit else eighth(0, 3)
+            d = float(red[m] + Fr(sh))
+            dem.append(d)
+            if abs(Fr(d) - red[m] + Fr(1, 10 ** 6)) <= Fr(1, 10 ** 9) * max(1, abs(red[m])):
+                skip = True
+        if j % 15 == 14:
+            dem = dem + [1.0]       # numpy refuses operands of different lengths (n = 1 would broadcast: keep n >= 2)
+            if n == 1:
+                series = [s + [0.0] for s in series]
+        add({"fn": fn, "settings": st, "include_fat": incf, "include_protein": incp, "series": series, "demand": dem},
+            f"assert_used_below_demand {cbool(incf)} {cbool(incp)} (vconv {fq(st['kcals_daily'])} {fq(47.0)} {fq(51.0)} "
+            f"{fq(st['population'])}) {fql(dem)} (sum5 " + " ".join(fql(s) for s in series) + ")",
+            obs="pass_or_value", skip=skip)
+
+    # ---- check_constraints_satisfied on a small PuLP model: |lhs - rhs| < 1 ( = ), lhs - rhs <= 1 ( <= ), rhs - lhs <= 1 ( >= )
+    offs = [0.0, 0.875, 1.0, 1.125, 5.0, 9.5, 12.0, -0.875, -1.0, -1.125, -5.0, -12.0]
+    cgrid = [(sn, o) for sn in ("Le", "Ge", "Eq") for o in offs]
+    cgrid += [(rng.choice(["Le", "Ge", "Eq"]), rng.choice(offs)) for _ in range(12 if quick else 300)]
+    for worst_sense, worst_off in cgrid:
+        nv = rng.randint(2, 4)
+        vs = []
+        for k in range(nv):
+            slot, prefix = VAL_SLOTS[k % len(VAL_SLOTS)]
+            mth = rng.randint(0, 11) if k < len(VAL_SLOTS) else 12 + k
+            vs.append((slot, mth, f"{prefix}_Month_{mth}_Variable", eighth(0, 40) if rng.random() < 0.9 else -eighth(0, 4)))
+        rows, rterms = [], []
+        nr = rng.randint(1, 3)
+        worst = rng.randrange(nr)
+        for r in range(nr):
+            sense = worst_sense if r == worst else rng.choice(["Le", "Ge", "Eq"])
+            used = rng.sample(range(nv), rng.randint(1, nv))
+            lhs = [(rng.choice([1.0, -1.0, 0.5, 2.0, 1.25, -3.0]), u) for u in used]
+            val = sum(Fr(c) * Fr(vs[u][3]) for c, u in lhs)
+            off = worst_off if r == worst else rng.choice([0.0, 0.5, -0.5])
+            skipped = rng.random() < 0.08
+            rhs = float(val - Fr(off))                     # lhs - rhs = off
+            if skipped:
+                rhs = 7777.0                               # exempt rows are recognised by this constant in the model term
+            rows.append({"name": f"Row_{r}_Constraint", "sense": sense, "rhs": rhs,
+                         "lhs": [(c, vs[u][2]) for c, u in lhs], "skipped": skipped})
+            rterms.append("mk [" + "; ".join(f"t {fq(c)} {vs[u][0]} {vs[u][1]}%nat" for c, u in lhs) + f"] {sense} {fq(rhs)}")
+        tbl = "[" + "; ".join(f"({s}, {m}%nat, {fq(x)})" for s, m, _n, x in vs) + "]"
+        add({"fn": "check_constraints", "vars": [(nm, x) for _s, _m, nm, x in vs],
+             "rows": [{k: v for k, v in r.items() if k != "skipped"} for r in rows],
+             "maximize_constraints": [r["name"] for r in rows if r["skipped"]]},
+            f"check_constraints_satisfied (fun r => Qeq_bool (rhs r) {fq(7777.0)}) (a_of {tbl}) [" + "; ".join(rterms) + "]")
+    return out
+
+
+def validator_tie(ctx):
+    """model (coq/Model/Validator.v) vs code (validate_results.py): pass / raise of every check on generated inputs"""
+    ok, bad, _ = ctx.build(["Model/Validator.vo", "Model/LPBool.vo"])
+    if not ok:
+        ctx.tie_ok = False
+        ctx.broken.append(f"Model/Validator.v does not compile: {bad}")
+        return
+    items = validator_cases(ctx.rng, ctx.quick)
+    live = [it for it in items if not it["skip"]]
+    res = ctx.run_impl("c16val_impl", {"cases": [_hx(it["case"]) for it in live]}, timeout=600)["results"]
+    terms, meta = [], []
+    dist, raised = {}, 0
+    for it, r in zip(live, res):
+        fn = it["case"]["fn"]
+        oc = r["outcome"]
+        allowed = {"pass", "AssertRejected"} | ({"ValueRejected"} if it["obs"] == "pass_or_value" else set())
+        if oc not in allowed:
+            raised += 1
+            ctx.tie_ok = False
+            if raised <= 3:
+                ctx.broken.append(f"validator correspondence: {fn} raised {oc} on a generated case")
+            ctx.violation(f"C16:validator-model-disagrees:{fn}:raised", f"the real {fn} check raised {oc}: {r.get('msg')}",
+                          {"kind": "tie-broken", "case": _hx(it["case"]), "observed": r})
+            continue
+        impl_true = (oc == "pass") and not (it["obs"] == "silent" and r.get("printed"))
+        terms.append(f"agree ({it['term']}) {'true' if impl_true else 'false'}")
+        meta.append((it, r, impl_true))
+        key = fn + (":passes" if impl_true else ":fires")
+        dist[key] = dist.get(key, 0) + 1
+        ctx.count(("validator", json.dumps(_hx(it["case"]), sort_keys=True)), nontrivial=True)
+    codes = ctx.coq_codes("c16val", VAL_IMPORTS, terms, per_file=80, defs=VAL_DEFS)
+    nbad = 0
+    for code, (it, r, impl_true) in zip(codes, meta):
+        if code != 0:
+            nbad += 1
+            fn = it["case"]["fn"]
+            ctx.tie_ok = False
+            if nbad <= 3:
+                ctx.broken.append(f"validator correspondence: model and code disagree on {fn}")
+            ctx.violation(f"C16:validator-model-disagrees:{fn}",
+                          f"Model/Validator.v says the {fn} check {'fires' if impl_true else 'passes'}, the code "
+                          f"{'passed' if impl_true else 'fired'} ({r.get('msg', '')})",
+                          {"kind": "counterexample", "case": _hx(it["case"]), "observed": r, "coq_term": it["term"]})
+    ctx.notes["validator_correspondence"] = {
+        "cases": len(terms), "boundary-skipped": len(items) - len(live), "raised_other": raised, "disagreements": nbad,
+        "distribution": dict(sorted(dist.items())),
+        "what": "each built-in check of validate_results.py called directly (stub interpreter objects with real Food "
+                "objects, a small PuLP model for the constraint check) on dyadic inputs; pass / AssertionError (printed / "
+                "silent for the print-only round-3 check) compared inside Coq with the boolean of Model/Validator.v"}
+    ctx.log(f"validator correspondence: {len(terms)} cases, {len(items) - len(live)} boundary-skipped, {nbad} disagreements")
+
+
+def validator_tie_guarded(ctx):
+    """a crash of the runner or of the Coq evaluation breaks the tie (fail closed) but does not lose the grid"""
+    from lib import ImplCrashed, CoqEvalFailed
+    try:
+        validator_tie(ctx)
+    except (ImplCrashed, CoqEvalFailed) as e:
+        ctx.tie_ok = False
+        ctx.broken.append(f"validator correspondence could not be evaluated: {str(e)[:600]}")
+        ctx.violation("C16:validator-model-disagrees:not-evaluated", f"validator correspondence could not be evaluated: {str(e)[:300]}",
+                      {"kind": "tie-broken", "error": str(e)[:3000]}, no_input=True)
+
+
 def run(ctx):
     ctx.level = "other"
     ctx.notes["explanation"] = (
@@ -34,6 +294,7 @@ def run(ctx):
                     "transcribed with the required key ratio_stocks_untouched)"]
     okg = ctx.regen(["gen_country_table"]) if os.path.exists("/verif/harness/gen_country_table.py") else True
     ctx.check_props()
+    validator_tie_guarded(ctx)
     codes = all_codes()
     cp = presets.country_presets(extended=True)
     cells = [{"iso3": c, "preset": n, "option": o} for n, o in cp.items() for c in codes]
@@ -92,6 +353,13 @@ def run(ctx):
 def replay(rep):
     from lib import Ctx
     ctx = Ctx("C16", "quick", int(rep.get("seed", 0)))
+    if "case" in rep and "coq_term" in rep:      # a validator-correspondence case: re-run the real check, re-evaluate the model
+        r = ctx.run_impl("c16val_impl", {"cases": [rep["case"]]})["results"][0]
+        impl_true = r["outcome"] == "pass" and not (rep["case"]["fn"] == "round3_vs_round1" and r.get("printed"))
+        code = ctx.coq_codes("c16val_replay", VAL_IMPORTS, [f"agree ({rep['coq_term']}) {'true' if impl_true else 'false'}"],
+                             defs=VAL_DEFS)[0]
+        print("code:", r, "| model agrees:", code == 0)
+        return 0 if code == 0 else 1
     if "cell" not in rep:
         print("replay:", rep.get("what"), rep.get("broken"))
         return 1
